@@ -197,6 +197,34 @@ async fn bundle_path(rng: &mut Rng, rep: &mut Report, gp: u64, stake_period: u64
                 pool.add_transaction_if_validates(tx, &chain).await;
             }
         }
+        // transactions of kinds that only the producer itself may put into a block (issuance, fee,
+        // rebroadcast, placeholder) are offered like any payment: if the pool takes one, the next
+        // bundle carries it and the node refuses its own block
+        if i % 3 == 1 {
+            use saito_core::core::consensus::transaction::{Transaction, TransactionType};
+            let mut odd = match (i / 3) % 4 {
+                0 => Transaction::create_issuance_transaction(b.actors[2].pk, 1_000 + i),
+                k => {
+                    let mut t = build_tx(&b.actors[2].clone(), &[], &[(b.actors[2].pk, 0)], b.store.get(&tip).ts + 4 + i, b"odd");
+                    t.transaction_type = match k {
+                        1 => TransactionType::Fee,
+                        2 => TransactionType::ATR,
+                        _ => TransactionType::SPV,
+                    };
+                    t.sign(&b.actors[2].sk);
+                    t
+                }
+            };
+            odd.generate(&b.actors[0].pk, 0, 0);
+            let chain = node.chain.read().await;
+            let mut pool = node.mempool.write().await;
+            let before = pool.transactions.len();
+            pool.add_transaction_if_validates(odd, &chain).await;
+            rep.count("producer_only_kinds_offered_to_the_pool");
+            if pool.transactions.len() > before {
+                rep.count("producer_only_kinds_pooled");
+            }
+        }
         let need_gt = !crate::history::density_ok(&b, &tip, false) || id % 2 == 0;
         let gt = if need_gt {
             let ticket = mine_gt(rng, tip, b.store.get(&tip).block.difficulty, &b.actors[1].pk);
